@@ -51,7 +51,8 @@ def replay(run, cache, tv):
             a = np.concatenate([p, p2, rp]); want = np.concatenate([u, u2, omega]); M = E.mat_se23(R, p2, p)
         out = call(f, a)
         k = f"{kind.upper()}{rep}/log"
-        cmp.vec(f"{k}/exp_log_roundtrip/{cell}/{sgn}", "exp(log X) is not X", out[1], M, tv)
+        rt = E.Cmp(run, tol=2e-3) if (rep == "euler" and cell == "band") else cmp     # documented gimbal band tolerance
+        rt.vec(f"{k}/exp_log_roundtrip/{cell}/{sgn}", "exp(log X) is not X", out[1], M, tv)
         if canonical:
             cmp.vec(f"{k}/principal/{cell}/{sgn}", "log(X) is not the principal (angle <= pi) vector of X's rotation / V^-1 p", out[0], want, tv)
         else:
@@ -108,7 +109,7 @@ def main():
             run.sample({k: tv[k] for k in tv if k not in ("exp", "u", "u2", "p2")}, limit=10)
         replay(run, cache, tv)
     need_signs = {(r, s) for r in ("quat", "mrp", "dcm", "euler") for s in (False, True)}
-    if not OPS <= set(ops) or not need_signs <= set(signs) or not {"small", "nearpi", "beyondpi", "zero"} <= set(cells):
+    if not OPS <= set(ops) or not need_signs <= set(signs) or not {"small", "nearpi", "beyondpi", "zero", "nearpole", "band"} <= set(cells):
         raise MachineryError(f"vacuous coverage: ops={sorted(OPS - set(ops))} signs={sorted(need_signs - set(signs))} cells={sorted(cells)}")
     run.assumptions += [
         "group elements with rational rotations (integer quaternions of both signs => shadow and non-shadow MRPs), integer translations",
